@@ -517,6 +517,17 @@ def tr3(ctx, R):
                     else:
                         R.ok(key, f.where(c), "objects: `%s`" % show(v)[:80])
                 break
+    # one scaler standing for all scalers of a channel: <obj>.daqmx_metadata.scalers[<constant>].raw_buffer_index in reader code
+    for f in mod_funcs:
+        if f.cls is None or "Reader" not in f.cls.name:
+            continue
+        for x in walk_body(f.node):
+            if isinstance(x, ast.Attribute) and x.attr == "raw_buffer_index" and isinstance(x.value, ast.Subscript) and isinstance(x.value.slice, ast.Constant) \
+                    and isinstance(x.value.slice.value, int) and (dotted(x.value.value) or "").endswith("scalers"):
+                n += 1
+                R.violation("%s::buffer of one scaler taken for all" % f.qual, f.where(x), "`%s` takes the raw buffer of one scaler as the buffer of the whole channel: "
+                            "a channel's scalers can lie in different raw buffers (each scaler carries its own raw_buffer_index), and the others are then decoded from "
+                            "the wrong buffer" % unparse(x)[:70])
     if n == 0:
         R.unrecognised("daqmx::objects handed to the dimension code", "nptdms/daqmx.py:1", "no call of get_buffer_dimensions (or of a function handing its objects on to it) inside nptdms.daqmx")
 
